@@ -195,13 +195,30 @@ func genCorruptions(r *core.Rand, e *kmodel.Engine) []*corruption {
 				apply: func(tx *bbolt.Tx) error { return bpath(tx, "stores", "depts", d, "watchers").Delete(tkey(id)) }})
 			break
 		}
-		add(&corruption{Class: "link-dangling", Desc: fmt.Sprintf("add missing dept %q to emps[%q].watching", ghostDept, id), Needles: [][]string{{id, ghostDept}},
+		// one to three neighbouring links to missing depts (fix mode removes links while it walks them)
+		nGhostLinks := 1 + r.Intn(3)
+		var ghostLinks []string
+		var glNeedles [][]string
+		for i := 0; i < nGhostLinks; i++ {
+			g := ghostDept
+			if i > 0 {
+				g = fmt.Sprintf("%s%d", ghostDept, i)
+			}
+			ghostLinks = append(ghostLinks, g)
+			glNeedles = append(glNeedles, []string{id, g})
+		}
+		add(&corruption{Class: "link-dangling", Desc: fmt.Sprintf("add %d missing depts %q to emps[%q].watching", nGhostLinks, ghostLinks, id), Needles: glNeedles,
 			apply: func(tx *bbolt.Tx) error {
 				b, err := bpath(tx, "stores", "emps", id).CreateBucketIfNotExists([]byte("watching"))
 				if err != nil {
 					return err
 				}
-				return b.Put(tkey(ghostDept), nil)
+				for _, g := range ghostLinks {
+					if err := b.Put(tkey(g), nil); err != nil {
+						return err
+					}
+				}
+				return nil
 			}})
 		// unfixable: null in the non-nullable unique index field
 		if v != "" {
@@ -400,13 +417,13 @@ func init() {
 		Rule: "consistent states reached through the API (random histories over schema K) must produce zero reports in check-only mode (read-only and writable transaction) and in fix mode; then a committed raw-write transaction injects a random subset (1-6) of " +
 			"corruptions from 23 classes (unique index missing / dangling / wrong-target / stale entry; set index missing entry / missing value key / dangling / non-holder entry / empty bucket; fk missing back-reference (one key, or the whole bucket absent) / dangling / non-matching back-reference, dangling reference nullable or not; " +
 			"links one-sided either side / dangling; duplicate unique values; null in a non-nullable unique field, fk-index field and fk-constraint field in three stored spellings). Oracle: every injected inconsistency is covered by a report naming its value and id(s), in View and Update check-only runs, which leave the whole-file dump unchanged and do not panic or fail; " +
-			"one fix pass then leaves only the predicted unfixable reports on re-check and (when none is unfixable) a structural-monitor-clean database equal to the model. non-trivial = distinct corruption-class subsets of size >= 2",
+			"one fix pass then leaves only the predicted unfixable reports on re-check and (when none is unfixable) a structural-monitor-clean database equal to the model. Every fifth case runs the fix pass inside the very transaction that damaged the indexes (cursors over buckets already written to in the transaction); dangling links, dangling index entries and dangling back-references come in runs of one to four neighbours, also next to a one-sided link of the same entity (whose repair, made from the other store, writes to the bucket the dangling links are then removed from). Soundness is also checked on a model-free schema: one parent with two sibling child stores, the second extended with a NON-nullable unique index, six ids so that runs of neighbours without data in it occur; after every operation whose raw scan finds the indexes mirroring the entities the check-only run (both transaction kinds) must report nothing and change nothing. non-trivial = distinct corruption-class subsets of size >= 2",
 		Assumptions: []string{"report matching is by mention of the index/field name, value and ids (wording not judged); extra reports on a corrupted database are not judged", "ref-counted link collections are not part of CheckIntegrity (not injected)"},
 		Plan: func(tier core.Tier, seed int64) int {
 			if tier == core.Thorough {
-				return 120000
+				return 120000 + c09SibCases*8
 			}
-			return 480
+			return 480 + c09SibCases
 		},
 		Run: runC09,
 		Promises: func(core.Tier) map[string][]string {
@@ -415,12 +432,19 @@ func init() {
 				"link-one-sided-emp-side-removed", "link-one-sided-dept-side-removed", "link-dangling", "duplicate-unique-value", "null-in-non-nullable-unique", "null-in-non-nullable-fk-index", "null-in-non-nullable-fk-constraint", "fk-missing-backref-bucket"}}
 		},
 		MinCounters: func(core.Tier) map[string]int64 {
-			return map[string]int64{"consistent_states_checked": 300, "corrupted_states": 300, "fix_converged_clean": 100}
+			return map[string]int64{"consistent_states_checked": 300, "corrupted_states": 300, "fix_converged_clean": 100, "fix_runs_inside_the_damaging_transaction": 50, "sibling_consistent_states_checked": 500, "extended_store_checked_over_a_run_of_parent_only_neighbours": 50}
 		},
 	})
 }
 
+const c09SibCases = 24
+
 func runC09(c *core.Ctx, idx int) {
+	if n := map[bool]int{false: 480, true: 120000}[c.Tier == core.Thorough]; idx >= n {
+		// soundness over a parent with two sibling child stores (one extended with a non-nullable unique index)
+		siblingScenario(c, idx-n, "C09")
+		return
+	}
 	r := c.Rand()
 	cfg := c09Configs[idx%len(c09Configs)]
 	e, err := kmodel.NewEngine(c, cfg)
@@ -580,11 +604,27 @@ func runC09(c *core.Ctx, idx int) {
 	} else {
 		c.Nontrivial(cfg.String(), classes[0], "single")
 	}
-	info = map[string]any{"cfg": cfg.String(), "corruptions": chosen}
+	// every fifth case: the fix run shares its transaction with the writes that damaged the indexes (its cursors then
+	// walk buckets which were already written to in this transaction); the check-only passes are left out there
+	sameTx := idx%5 == 4
+	info = map[string]any{"cfg": cfg.String(), "corruptions": chosen, "fix_in_the_damaging_transaction": sameTx}
+	var sameTxReps []report
+	var sameTxErr error
 	err = e.Db.Update(nil, func(ctx boltz.MutateContext) error {
 		for _, ch := range chosen {
 			if err := ch.apply(ctx.Tx()); err != nil {
 				return fmt.Errorf("%s: %w", ch.Desc, err)
+			}
+		}
+		if sameTx {
+			for _, k := range e.Sc.Order {
+				k := k
+				if sameTxErr = e.Sc.St(k).Store.CheckIntegrity(ctx, true, func(err error, fixed bool) {
+					sameTxReps = append(sameTxReps, report{Msg: err.Error(), Fixed: fixed, Store: k})
+				}); sameTxErr != nil {
+					sameTxErr = fmt.Errorf("store %s: %w", k, sameTxErr)
+					return nil
+				}
 			}
 		}
 		return nil
@@ -594,6 +634,9 @@ func runC09(c *core.Ctx, idx int) {
 		return
 	}
 	c.Count("corrupted_states", 1)
+	if sameTx {
+		c.Count("fix_runs_inside_the_damaging_transaction", 1)
+	}
 	if c.WantSample() {
 		var ds []string
 		for _, ch := range chosen {
@@ -603,6 +646,9 @@ func runC09(c *core.Ctx, idx int) {
 	}
 	d1 := dumpDb(e)
 	for _, mode := range []string{"view", "update"} {
+		if sameTx {
+			break
+		}
 		reps, err := runIntegrity(e, false, mode)
 		c.Eval()
 		if err != nil {
@@ -627,7 +673,12 @@ func runC09(c *core.Ctx, idx int) {
 		}
 	}
 	// (C) one fix pass
-	fixReps, err := runIntegrity(e, true, "update")
+	var fixReps []report
+	if sameTx {
+		fixReps, err = sameTxReps, sameTxErr
+	} else {
+		fixReps, err = runIntegrity(e, true, "update")
+	}
 	c.Eval()
 	if err != nil {
 		c.Violationf("C09 fix run failed: "+firstWords(err.Error()), info, "%v", err)
